@@ -319,6 +319,24 @@ func runC08(t *testing.T, planAny any, res *simnet.Result) {
 			rc.Close()
 			res.Add("probe_overlapping_sessions", 1)
 			probe("overlapping release and list")
+			// two sessions ask about a unit that so far exists only on disk, the second while the first is loading it
+			if src := units[0]; src != u || len(units) > 1 {
+				if src == u {
+					src = units[1]
+				}
+				id := "diskonlyZ"
+				if copyDir(node.UnitDirReal(src), node.UnitDirReal(id)) == nil {
+					ctl.InjectOnce("load.lock", "/"+id+"/", func(string) { _ = node.DirectCmd("work status " + id) })
+					qc := node.Session("unix")
+					_, _ = qc.Hello()
+					if reply, err := qc.Cmd("work status "+id, 30*time.Second); err != nil {
+						res.Violate("c08:no-answer|first-touch-overlap", "work status for a disk-only unit got no answer in 30 s while another session asked about the same unit (%q, %v)", trunc(reply), err)
+					}
+					qc.Close()
+					res.Add("probe_overlapping_first_touch", 1)
+					probe("overlapping first touch of a disk-only unit")
+				}
+			}
 		}
 		res.SimSeconds = w.Now().Seconds()
 		res.LogHash, res.LogLines = w.CanonicalLogHash()
